@@ -125,7 +125,16 @@ func GenConfig(r *rand.Rand, profile string) Config {
 	if c.NVals > 7 {
 		c.NVals = 7
 	}
-	switch r.Intn(6) {
+	switch r.Intn(7) {
+	case 5: // two camps just below one half each and small validators that tip the balance (weighted medians, ties)
+		if c.NVals < 3 {
+			c.NVals = 3
+		}
+		a := int64(400 + r.Intn(100))
+		c.Stakes = append(c.Stakes, a, a-int64(r.Intn(3)))
+		for i := 2; i < c.NVals; i++ {
+			c.Stakes = append(c.Stakes, int64(1+r.Intn(4)))
+		}
 	case 0: // equal
 		p := int64(1 + r.Intn(100))
 		for i := 0; i < c.NVals; i++ {
@@ -272,7 +281,7 @@ func GenConfig(r *rand.Rand, profile string) Config {
 	c.AvgEthBlockMs = pick(r, []uint64{15000, 15000, 5000, 1000})
 	c.AvgBscBlockMs = pick(r, []uint64{5000, 5000, 3000})
 	c.TargetEthTxTimeoutMs = pick(r, []uint64{60000, 120000, 600000, 86400000})
-	c.OutgoingTxTimeoutMs = pick(r, []uint64{60000, 300000, 3600000, 86400000 - 1})
+	c.OutgoingTxTimeoutMs = pick(r, []uint64{60000, 300000, 3600000, 86400000 - 1, 60001, 299999})
 	c.EthStartHeight = uint64(1000 + r.Intn(100000))
 	c.Replicas = 1
 	c.UnbondingSecs = pick(r, []int64{30, 120, 3600})
